@@ -168,6 +168,12 @@ func specUvarint(f *frame, callee *ssa.Function, args []Val, in string, st *Stat
 		e = Ite(App(">=", fmt.Sprint(k), l), "0", Ite(App("<", bk(k), "128"), res, e))
 	}
 	vc.assume(in, Eq(n, e))
+	// the decoded value: sum of the 7-bit groups of the first n bytes
+	var groups []string
+	for k := 0; k <= 9; k++ {
+		groups = append(groups, Ite(App("<", fmt.Sprint(k), n), App("*", App("mod", bk(k), "128"), BigLit(Pow2(7*k))), "0"))
+	}
+	vc.assume(in, Implies(App(">", n, "0"), Eq(v, App("+", groups...))))
 	vc.assume(in, And(RangeOf(types.Typ[types.Uint64], v), App("<=", "(- 11)", n), App("<=", n, "10"), App("<=", n, l), App("<=", App("-", n), l)))
 	vc.assume(in, Implies(Eq(l, "0"), Eq(n, "0")))
 	vc.assume(in, Implies(App("<=", n, "0"), Eq(v, "0")))
